@@ -2,7 +2,7 @@ import re
 
 __all__ = ["Range", "ContentRange"]
 
-_rx_range = re.compile(r"bytes *= *(\d*) *- *(\d*)", flags=re.I)
+_rx_range = re.compile(r"bytes *= *(\d*) *- *(\d*) *$", flags=re.I)
 _rx_content_range = re.compile(r"bytes (?:(\d+)-(\d+)|[*])/(?:(\d+)|[*])")
 
 
